@@ -285,6 +285,24 @@ def build_class(model, consts, cls):
     hs = model.find_method(cls, 'calculateHeaderSize')
     size = simp(fix(fun_value(Ctx(model, cls, sz[0], '', None), sz[1])))
     hsize = simp(fix(fun_value(Ctx(model, cls, hs[0], '', None), hs[1])))
+    def eflds(e, acc):
+        if isinstance(e, tuple):
+            if e[0] in ('fld', 'bsize'):
+                acc.add(e[1])
+            for x in e[1:]:
+                eflds(x, acc)
+
+    def sflds(ss, acc):
+        for st in ss:
+            if st[0] == 'if':
+                eflds(st[1], acc); sflds(st[2], acc); sflds(st[3], acc)
+            elif st[0] in ('rdBuf', 'wrBuf', 'seekg', 'skipp'):
+                eflds(st[-1], acc)
+            elif st[0] == 'resize':
+                eflds(st[3], acc)
+    shape = set()
+    sflds(r, shape)
+    sflds(w, shape)
     dfl = consts.ctor_defaults(cls, [])
     finfo = []
     for f in fields:
@@ -297,7 +315,7 @@ def build_class(model, consts, cls):
     ctor_type = dfl.get('objectType')
     notes = [k for k in dfl if k.startswith('#')]
     return {'name': cls, 'fields': finfo, 'read': r, 'write': w, 'size': size, 'hsize': hsize,
-            'ctorType': ctor_type, 'notes': notes}
+            'ctorType': ctor_type, 'notes': notes, 'shapeFields': sorted(shape)}
 
 
 def layout_hint(ci):
@@ -554,7 +572,7 @@ def main():
     for idx, (ci, lay, _) in enumerate(built):
         summary['classes'].append({'name': ci['name'], 'chunk': idx % NCH, 'fields': ci['fields'], 'regular_hint': bool(lay),
                                    'ctorType': ci['ctorType'], 'notes': ci['notes'],
-                                   'layout': lay})
+                                   'layout': lay, 'shapeFields': ci['shapeFields']})
         (summary['regular'] if lay else summary['irregular']).append(ci['name'])
     summary['factory'] = {str(k): v for k, v in (factory or {}).items()}
     summary['objectType'] = getattr(consts, 'objecttype', [])
